@@ -402,6 +402,20 @@ def family_programs(rnd, n):
               ("[ch].iter().each(|c| { launch M().run(c); });", "7"), ("launch plain.call(ch);", "1")]
     for i, (src, exp) in enumerate(LAUNCH):
         out.append((f"launch:{i}", LPRE + src + "\nprint(<- ch);\nprint(\"after\");", {"stdout": [exp, "after"], "status": "ok"}))
+    # ---- errors and callbacks built while the stack is at every fill level (run again under a collection at every
+    # allocation): the runtime makes room on the stack for the callee and its arguments, which can start a collection
+    # while they are reachable from nowhere else
+    # the raising call is the deepest point of its function (nothing else in it needs more slots), so the room for
+    # the error's constructor call is exactly what is missing when the frame sits at the end of the stack
+    RAISERS = ["assertEq(k, -1)", "assertNe(k, k)", '"a".has(k)', "[1].remove(k + 5)", "[1].insert(k + 5, 0)", "k.times().take(0.5)",
+               "[3, 1, 2].sort(|a, b| nil)", "[1, 2].iter().map(|x| x.zz).list()", "[k].iter().each(|x| x.zz)", "k + nil"]
+    for k in range(0, 40, 1):
+        what = RAISERS[k % len(RAISERS)]
+        locs = "".join(f"  let v{j} = {j};\n" for j in range(k % 13))
+        src = (HEADER + f"fn f(k) {{\n{locs}  try {{ {what}; }} catch e {{ print(e.cls().name().len() > 3); }}\n  return k;\n}}\n"
+               "fn r(n, k) { if n == 0 { return f(k); } return r(n - 1, k); }\n"
+               f"let d = 0;\nwhile d < 120 {{ r(d, {k}); d = d + 1; }}\nprint(\"after\");")
+        out.append((f"errfill:{k}", src, {"stdout": ["true"] * 120 + ["after"], "status": "ok"}))
     # ---- launch of something that runs at once (a native, a class without initializer, a class with a native
     # initializer): repeated inside a function whose stack is then used to its reserved depth
     for i, what in enumerate(['print("hi")', "NoInit()", 'Error("x")', "[1].push(2)", '"a".len()', "clock()", "[3, 1].iter()", "Obj0()"]):
@@ -432,6 +446,41 @@ DEEP = [
     ('nested-list-collected', 'let l = [];\nlet i = 0;\nwhile i < 300000 { l = [l]; i = i + 1; }\nprint("built");\nlet junk = [];\ni = 0;\n'
                               'while i < 300000 { junk = [i, "x${i}"]; i = i + 1; }\nprint("after");'),
 ]
+
+
+def mutant_programs(binary, rnd, n):
+    """texts the C15 mutation engine makes from the fixture and generator corpus that the front end ACCEPTS: programs
+    nobody wrote on purpose (launch of a native, a catch class that is a string, statements moved into other
+    functions ...).  Fiber and channel constructs are left to C07 / C08."""
+    import c_front
+    texts = [(tid, t) for tid, t in c_front.corpus(rnd, 200) if not re.search(r"\bchan\b|<-|\bexit\b|stdin|while true", t)]
+    cand = []
+    for i in range(n):
+        tid, t = rnd.choice(texts)
+        cand.append((f"mut:{i}:{tid}", c_front.mutate_lines(rnd, t)))
+    cand = [(cid, t) for cid, t in cand if len(t) < 6000 and not re.search(r"\bchan\b|<-|\bexit\b|while true", t)]
+    res = vlib.run_batch(binary, [{"id": f"d{j}", "src": t, "repl": False} for j, (cid, t) in enumerate(cand)], subcmd="dump", per_case_timeout=60)
+    return [(cid, t) for j, (cid, t) in enumerate(cand) if res[f"d{j}"].get("status") == "ok"]
+
+
+# ---- tiny module-level programs whose only deep point is a call that fails: the fiber's stack is exactly as large
+# as the script needs, so the runtime has to grow it to build the error; run plainly and under a collection at every
+# allocation, the printed message and everything else must be identical (differential: no wording is assumed)
+TINY_RAISERS = ["assertEq(1, 2)", "assertNe(3, 3)", 'assertEq("a", [1])', "assert(false)", '"a".has(1)', "[1].remove(7)", "[1].insert(9, 0)", "[1][5]",
+                '{"a": 1}["b"]', "(1, 2)[7]", '"abc"[9]', "[1].slice(nil)", "3.times().take(0.5)", "(0 - 1).times()", "1.until(5, 0)", "clock(1)",
+                "nil + 1", "nil.x", "nil.m()", "3()", "[3, 1, 2].sort(|a, b| nil)", "[1, 2].iter().map(|x| x.zz).list()", "[1].iter().each(|x| x.zz)",
+                "[1].iter().reduce(0, |a, b| a.q)", 'raise Error("plain")', 'raise ValueError("v" + 1.str())', 'Number.parse("zz")', "List.collect(3)",
+                "[1].iter().zip(4)", 'Error()', 'Error(1)', '[1].iter().into(|it| it.nope)']
+
+
+def tiny_error_programs():
+    out = []
+    for i, what in enumerate(TINY_RAISERS):
+        for pre in range(0, 4):
+            lets = "".join(f"let p{j} = {j};\n" for j in range(pre))
+            # nothing else in the script needs more slots than the failing call: print(e.message) takes two
+            out.append((f"tiny:{i}:{pre}", lets + f"try {{ {what}; }} catch e {{ print(e.message); }}\n" + what + ";\n"))
+    return out
 
 
 def exit_cases(dump, calls, rnd):
@@ -583,6 +632,43 @@ def run(pid, tier, replay=None):
                     v.violation(f"[{label}+gc] {fid}: {what}", {"id": fid, "source": src, "expect": exp, "build": label + "+gc",
                                 "observed": {"status": r_.get("status"), "code": r_.get("code"), "stdout": r_.get("stdout", "")[:600],
                                              "stderr": r_.get("stderr", "")[-600:], "panic": r_.get("panic")}})
+        if not replay:
+            tiny = tiny_error_programs()
+            plain = vlib.run_batch(binary, [{"id": f"t{j}", "files": {"/v/main.lay": src}, "main": "/v/main.lay"} for j, (tid, src) in enumerate(tiny)], per_case_timeout=30)
+            dense = vlib.run_batch(binary, [{"id": f"t{j}", "files": {"/v/main.lay": src}, "main": "/v/main.lay", "gc": {"every": 1, "force_full": True}}
+                                            for j, (tid, src) in enumerate(tiny)], per_case_timeout=30)
+            for j, (tid, src) in enumerate(tiny):
+                a, b_ = plain[f"t{j}"], dense[f"t{j}"]
+                judged += 1
+                strip = lambda t: re.sub(r"0x[0-9a-f]+", "0x?", t or "")
+                what = None
+                for name, r_ in (("", a), ("+gc", b_)):
+                    if r_.get("status") in ("panic", "crash", "hang", "timeout"):
+                        what = f"[{label}{name}] {tid}: ends in a host failure: {r_.get('status')} {str(r_.get('panic'))[:160]} signal={r_.get('signal')}"
+                if what is None and (a.get("status") != b_.get("status") or strip(a.get("stdout")) != strip(b_.get("stdout")) or strip(a.get("stderr")) != strip(b_.get("stderr"))):
+                    what = (f"[{label}] {tid}: a collection at every allocation changes what the program reports: {strip(a.get('stdout'))[-120:]!r} / "
+                            f"{strip(a.get('stderr'))[-100:]!r} becomes {strip(b_.get('stdout'))[-120:]!r} / {strip(b_.get('stderr'))[-100:]!r}")
+                if what:
+                    v.violation(what, {"id": tid, "source": src, "expect": {"contract": True}, "build": label})
+        if not replay and label == builds[0][0]:
+            # accepted mutants, run plainly and under a collection at every allocation: no host failure in either
+            # (a mutant may loop: a timeout is not judged)
+            muts = mutant_programs(binary, random.Random(vlib.seed() * 17 + 3), 9000 if tier == "quick" else 150000)
+            v.notes["accepted_mutants_run"] = len(muts)
+            for extra_name, extra_opts in (("", {}), ("+gc", {"gc": {"every": 1, "force_full": True}})):
+                cases = [dict({"id": f"u{j}", "files": {"/v/main.lay": t}, "main": "/v/main.lay"}, **extra_opts) for j, (cid, t) in enumerate(muts)]
+                resm = vlib.run_batch(binary, cases, per_case_timeout=5)
+                seen_sites = collections.Counter()
+                for j, (cid, t) in enumerate(muts):
+                    r_ = resm[f"u{j}"]
+                    judged += 1
+                    if r_.get("status") in ("panic", "crash"):
+                        site = str(r_.get("panic"))[:100] + str(r_.get("signal"))
+                        seen_sites[site] += 1
+                        if seen_sites[site] <= 2:
+                            v.violation(f"[{label}{extra_name}] {cid}: ends in a host failure: {r_.get('status')} panic={str(r_.get('panic'))[:200]} signal={r_.get('signal')}",
+                                        {"id": cid, "source": t, "expect": {"contract": True}, "build": label + extra_name,
+                                         "observed": {"status": r_.get("status"), "panic": r_.get("panic"), "stdout": r_.get("stdout", "")[-300:], "stderr": r_.get("stderr", "")[-400:]}})
         if not replay:
             cases = [{"id": f"d{i}", "files": {"/v/main.lay": src}, "main": "/v/main.lay"} for i, (did, src) in enumerate(DEEP)]
             res = vlib.run_batch(binary, cases, per_case_timeout=120)
